@@ -58,6 +58,12 @@ type EzCfg struct {
 	N          int64    `dials:"n"`
 	Key        string   `dials:"key"`
 	KeyFile    string   `dials:"key_file"` // its variable KEY_FILE must never be read as "the file holding KEY"
+	Emb                 // embedded, untagged: its leaf is E / -e / top-level "e" (JSON, Cue, YAML with FlattenAnonymousFields), "emb: e:" (YAML without), [Emb] (TOML)
+}
+
+// Emb is embedded in EzCfg
+type Emb struct {
+	E int `dials:"e"`
 }
 
 const (
@@ -101,6 +107,7 @@ type leafVals struct {
 	Path  *string
 	Key   *string
 	KeyF  *string
+	E     *int
 }
 
 func word(r *coqfmt.Rng, tag string) string {
@@ -144,6 +151,10 @@ func genLeafs(r *coqfmt.Rng, origin int, setNum, setDen int) leafVals {
 		v := word(r, tag)
 		lv.KeyF = &v
 	}
+	if r.Chance(setNum, setDen) {
+		v := r.Intn(1000) + origin*10000
+		lv.E = &v
+	}
 	return lv
 }
 
@@ -180,6 +191,14 @@ func render(format string, lv leafVals) string {
 		lst = "[" + strings.Join(parts, ", ") + "]"
 		kv = append(kv, [2]string{"l", lst})
 	}
+	var emb [][2]string // the embedded struct's leaf: promoted to the top level or under "emb", see embTop
+	if lv.E != nil {
+		if embTop {
+			kv = append(kv, [2]string{"e", fmt.Sprint(*lv.E)})
+		} else {
+			emb = append(emb, [2]string{"e", fmt.Sprint(*lv.E)})
+		}
+	}
 	var sub [][2]string
 	if lv.X != nil {
 		sub = append(sub, [2]string{"x", fmt.Sprint(*lv.X)})
@@ -214,6 +233,9 @@ func render(format string, lv leafVals) string {
 			sb.WriteString("}")
 			emit("sub", sb.String())
 		}
+		if len(emb) > 0 {
+			emit("emb", "{"+q(emb[0][0])+": "+emb[0][1]+"}")
+		}
 		b.WriteString("}")
 	case "yaml":
 		for _, e := range kv {
@@ -224,6 +246,9 @@ func render(format string, lv leafVals) string {
 			for _, e := range sub {
 				b.WriteString("  " + e[0] + ": " + e[1] + "\n")
 			}
+		}
+		if len(emb) > 0 {
+			b.WriteString("emb:\n  " + emb[0][0] + ": " + emb[0][1] + "\n")
 		}
 		if b.Len() == 0 {
 			b.WriteString("{}\n")
@@ -237,6 +262,9 @@ func render(format string, lv leafVals) string {
 			for _, e := range sub {
 				b.WriteString(e[0] + " = " + e[1] + "\n")
 			}
+		}
+		if len(emb) > 0 {
+			b.WriteString("[emb]\n" + emb[0][0] + " = " + emb[0][1] + "\n")
 		}
 	}
 	return b.String()
@@ -270,6 +298,9 @@ func envVars(lv leafVals) map[string]string {
 	}
 	if lv.Key != nil {
 		m["KEY"] = *lv.Key
+	}
+	if lv.E != nil {
+		m["E"] = fmt.Sprint(*lv.E)
 	}
 	if lv.KeyF != nil {
 		m["KEY_FILE"] = *lv.KeyF
@@ -306,6 +337,9 @@ func flagArgs(lv leafVals) []string {
 	if lv.Key != nil {
 		a = append(a, "-key="+*lv.Key)
 	}
+	if lv.E != nil {
+		a = append(a, fmt.Sprintf("-e=%d", *lv.E))
+	}
 	if lv.KeyF != nil {
 		a = append(a, "-key_file="+*lv.KeyF)
 	}
@@ -341,6 +375,9 @@ func defaultsOf(lv leafVals) *EzCfg {
 	}
 	if lv.KeyF != nil {
 		c.KeyFile = *lv.KeyF
+	}
+	if lv.E != nil {
+		c.E = *lv.E
 	}
 	return c
 }
@@ -394,12 +431,17 @@ func ezDecoder(path, format string, v ezVariation) dials.Decoder {
 	if !v.disableSet {
 		ms = append(ms, &transform.SetSliceMangler{})
 	}
-	return sourcewrap.NewTransformingDecoder(rawDecoder(format, v.flatAnon), ms...)
+	return sourcewrap.NewTransformingDecoder(rawDecoder(format, v.flatAnon && v.entry != 0), ms...)
 }
 
 // keys of EzCfg.KeyFile and EzCfg.Valid in the file of the current case ("key-file", "va-lid" under the
 // kebab encoder with the caller's own tag decoder); cases run serially
 var keyFileKey, validKey = "key_file", "valid"
+
+// where the embedded struct's leaf lives in the file of the current case: promoted to the top level
+// (JSON and Cue without a field-name encoder; YAML with FlattenAnonymousFields) or under "emb" (an encoder
+// gives the embedded field a tag of its own; YAML without flattening; TOML always)
+var embTop bool
 
 // the caller's own naming scheme for dials tags (Params.DialsTagNameDecoder "exists to allow for other
 // naming schemes"): lower_snake_case in which the word "valid" reads as the two words "va", "lid"
@@ -441,11 +483,18 @@ func run(raw json.RawMessage) driver.Result {
 	defer os.RemoveAll(dir)
 	format := coqfmt.Pick(r, []string{"json", "yaml", "toml", "cue"})
 	watch := r.Chance(1, 2)
-	vr := ezVariation{entry: r.Intn(5), kebab: r.Chance(1, 4), disableSet: r.Chance(1, 3), flatAnon: r.Chance(1, 3)}
+	vr := ezVariation{entry: r.Intn(5), kebab: r.Chance(1, 4), disableSet: r.Chance(1, 3), flatAnon: r.Chance(1, 2)}
+	if vr.flatAnon && r.Chance(1, 2) {
+		format = "yaml" // the only format the option matters for
+	}
 	keyFileKey, validKey = "key_file", "valid"
 	if vr.kebab {
 		keyFileKey, validKey = "key-file", "va-lid"
 	}
+	// Params.FlattenAnonymousFields reaches the YAML decoder through every entry point that builds the decoder
+	// itself; a plain DecoderFactory (entry 0: ez.DecoderFromExtension) has no access to the Params
+	effFlat := vr.flatAnon && vr.entry != 0
+	embTop = ((format == "json" || format == "cue") && !vr.kebab) || (format == "yaml" && effFlat)
 	ext := format
 	if format == "yaml" && r.Chance(1, 2) {
 		ext = "yml"
@@ -476,6 +525,14 @@ func run(raw json.RawMessage) driver.Result {
 	fileB := genLeafs(r, 1, 1, 2)
 	envL := genLeafs(r, 2, 1, 3)
 	flagL := genLeafs(r, 3, 1, 3)
+	if effFlat && format == "yaml" { // the embedded leaf comes from the file more often than not
+		for _, f := range []*leafVals{&fileA, &fileB} {
+			if f.E == nil {
+				v := r.Intn(1000) + 10000
+				f.E = &v
+			}
+		}
+	}
 	// validity: decided by whichever layer sets it last; often only the file makes it valid
 	switch r.Intn(6) {
 	case 0:
@@ -747,6 +804,9 @@ func run(raw json.RawMessage) driver.Result {
 			}
 			if lv.KeyF != nil {
 				exp.KeyFile = *lv.KeyF
+			}
+			if lv.E != nil {
+				exp.E = *lv.E
 			}
 		}
 		switch {
